@@ -11,7 +11,10 @@ MCAsts == << Fn(NameCps["sort_by"], <<Lit(Arr(<<I(3), I(1), I(2)>>)), Ref(Curren
              Fn(NameCps["abs"], <<Field(cA)>>),
              VProj(Identity, Identity),
              Fn(NameCps["sort_by"], <<Field(cA), Ref(Field(cA))>>),
-             Sub(Field(cA), Field(cB)) >>
+             Sub(Field(cA), Field(cB)),
+             MSL(<<Fn(NameCps["not_null"], <<Field(cA), Field(cB)>>), Fn(NameCps["not_null"], <<Field(cA), Field(cB), Field(<<99>>)>>)>>),
+             Or(Fn(NameCps["merge"], <<Field(cA)>>), Fn(NameCps["not_null"], <<Field(cB), Field(cA), Lit(I(7)), Lit(I(8))>>)),
+             MSL(<<Fn(NameCps["not_null"], <<Field(cB), Lit(I(1)), Lit(I(2))>>), Fn(NameCps["not_null"], <<Field(cB)>>), Fn(NameCps["max_by"], <<Current, Ref(Current)>>)>>) >>
 MCDocs == << Arr(<<I(3), I(1), I(2)>>), Obj({<<cA, I(-1)>>, <<cB, Str(<<120>>)>>}), Obj({<<cA, Str(<<120>>)>>}),
              Obj({<<cA, Arr(<<Obj({<<cA, I(2)>>}), Obj({<<cA, I(1)>>})>>)>>}), Null >>
 (* a.b | [0 | (unclosed quote) | a[1] | a.b.c | * | a( | `1` *)
